@@ -517,6 +517,7 @@ type Case struct {
 	Scheds map[string][]int `json:"scheds"` // several schedules; a negative first element = deliver EOF with the last data
 	Cuts   []int  `json:"cuts"`
 	Vals   []any  `json:"vals"`   // c09: value trees
+	Written bool  `json:"written"` // c09: every value lives in its own writer's Record and was written once (encoder caches populated)
 	Freeze bool   `json:"freeze"`
 }
 
@@ -947,8 +948,22 @@ func (e *Env) RunC09(c *Case) (out *Out) {
 	var objs []reflect.Value
 	for _, v := range c.Vals {
 		e.lastArr = nil
-		o := e.newRecord(c.Root)
-		e.set(rootT, o, v, &setOpts{freeze: c.Freeze})
+		var o reflect.Value
+		if c.Written {
+			w, err := e.Roots[c.Root].NewWriter(&ChunkSink{}, pkg.WriterOptions{})
+			if err != nil {
+				panic(err)
+			}
+			wv := reflect.ValueOf(w)
+			o = wv.Elem().FieldByName("Record").Addr()
+			e.set(rootT, o, v, &setOpts{freeze: c.Freeze})
+			if err := call(wv, "Write")[0]; !err.IsNil() {
+				panic(err.Interface())
+			}
+		} else {
+			o = e.newRecord(c.Root)
+			e.set(rootT, o, v, &setOpts{freeze: c.Freeze})
+		}
 		objs = append(objs, o)
 	}
 	dump := func(o reflect.Value) string { return e.DumpRoot(c.Root, o) }
